@@ -34,7 +34,7 @@ theorem lastLine_spec (d : Bytes) :
 /-- C12.b  The specification composes: the position after `a ++ b` is the position after `a` advanced
 byte-wise over `b` (`Pos.step`: line feed → next line, column 1; continuation byte → unchanged;
 any other byte → next column). -/
-theorem of_append' (a b : Bytes) : Pos.of (a ++ b) = adv (Pos.of a) b := of_append a b
+theorem of_compose (a b : Bytes) : Pos.of (a ++ b) = adv (Pos.of a) b := of_append a b
 
 example : Pos.of (bytesOf "ab\n\tc") = (2, 3) := by decide
 example : Pos.of [0x61, 0xC3, 0xA9, 0x0A, 0xE2, 0x82, 0xAC, 0x20] = (2, 3) := by decide
